@@ -236,7 +236,7 @@ def run(args) -> int:
             chk.violation(f'schematic:{rec["logic"]}:{rec["rule"]}',
                           f'{rec["logic"]} {rec["rule"]}: applied to operands {rec["operands"]} the rule produced '
                           f'{rec["got"]}, the schema instance is {rec["expected"]}',
-                          dict(kind='schematic', **rec), found_input=False)
+                          dict(rec, kind='schematic', rule_kind=rec.get('kind')), found_input=True)
 
     # ---- frame rules: exhaustive small access-pair sets ---------------------------
     fr = probe_json('probe_frames.py', [args.tier, str(args.seed)], timeout=1800)
@@ -269,7 +269,7 @@ def run(args) -> int:
             chk.violation(f'frame:{rec["logic"]}:{rec["why"]}',
                           f'{rec["logic"]}: access pairs {rec["pairs"]} on worlds {rec["worlds"]} saturate to '
                           f'{rec["got"]}, the frame condition requires exactly {rec["expected"]}',
-                          dict(kind='frame', **rec))
+                          dict(rec, kind='frame'))
 
     chk.assumptions = props_assumptions('C04')
     chk.theorems = ['C04_tf_exact', 'C04_tf_sound', 'C04_tf_complete', 'C04_gen_sound', 'C04_gen_complete']
